@@ -1161,7 +1161,7 @@ func genC18(g *G, sc *Scenario, tier string) {
 	deps := []any{map[string]any{"dataset": "dep", "joins": joins}}
 	writable := append([]string{}, chain...)
 	endpoints := []string{"dep", "main"} // datasets a client writes to while a run is under way
-	if g.P(0.5) {
+	if g.P(0.6) {
 		// a second dependency, one hop from the main dataset
 		sc.Datasets = append(sc.Datasets, "dep2")
 		ids["dep2"] = poolNames(MkE, "x", g.Range(2, 3))
@@ -1252,9 +1252,15 @@ func genC18(g *G, sc *Scenario, tier string) {
 		if g.P(0.25) {
 			spec["sinkFailAt"] = g.Range(1, 3)
 		}
-		if g.P(0.35) {
-			// a client writes between two deliveries of the run
+		if g.P(0.45) {
+			// a client writes between two deliveries of the run; with two dependencies mostly to the one that is
+			// processed later, after an earlier one has delivered something
 			ds := g.Pick(endpoints)
+			if len(deps) > 1 && g.P(0.6) {
+				first := fmt.Sprint(deps[0].(map[string]any)["dataset"])
+				ds = fmt.Sprint(deps[len(deps)-1].(map[string]any)["dataset"])
+				sc.Ops = append(sc.Ops, Op{K: "batch", DS: first, Ents: []Ent{mk(first, g.Pick(ids[first]))}})
+			}
 			var ents []Ent
 			for k := g.Range(1, 2); k > 0; k-- {
 				ents = append(ents, mk(ds, g.Pick(ids[ds])))
